@@ -22,7 +22,7 @@ import (
 )
 
 func TestVerifBoundedC40KeystoreModel(t *testing.T) {
-	names := []string{"a", "A", "..", "a/b", "../x", "k\x00ü", strings.Repeat("n", 70), "Self", "Peer", "élan"}
+	names := []string{"a", "A", "..", "a/b", "../x", "k\x00ü", strings.Repeat("n", 70), "Self", "Peer", "élan", "raw\xff\xfebytes", "\xc3"}
 	var keys []ci.PrivKey
 	for range 2 {
 		k, _, err := ci.GenerateEd25519Key(rand.Reader)
